@@ -44,6 +44,7 @@ type World struct {
 	effects      map[*ssa.Function]*Effects
 	effectRounds int
 	errRes       *errResolver
+	baseMem      map[string]AV
 }
 
 func readModPath(dir string) (string, error) {
